@@ -120,8 +120,9 @@ def cmd_explain(args):
         try:
             from ..section_engine import load_sections
             views_config = load_sections(views_file)
-        except Exception:
-            pass  # Views are optional
+        except Exception as e:
+            # Views are optional, but a broken views file should not go unnoticed
+            print(f"Warning: could not load views file {views_file}: {e}", file=sys.stderr)
 
     verbose = args.verbose
 
